@@ -17,7 +17,8 @@ from .. import gen_source as G, ser
 PROP = "C01"
 THEOREMS = [
     "C01_number_sound", "C01_number_complete", "C01_lexer_total", "C01_total_outcome",
-    "C01_error_position_partial", "C01_error_position_refuted", "C01_render_total",
+    "C01_error_position_partial", "C01_error_position_refuted", "C01_rejection_origin", "C01_lexer_rejection_spec",
+    "C01_lex_error_functional", "C01_lexes_or_lex_error", "C01_lexical_rejection_spec", "C01_render_total",
     "C01_type_sound", "C01_type_complete", "C01_value_sound", "C01_value_complete",
     "C01_value_production_sound", "C01_value_production_complete",
     "C01_exec_sound", "C01_exec_complete", "C01_exec_tokens_sound", "C01_exec_tokens_complete",
@@ -214,9 +215,11 @@ def generate(rng, tier):
     # every production, deterministically: prefixes / one-token deletions / body-less shapes of every
     # definition and extension kind, alone and next to other definitions, under all 8 flag triples
     # (run_impl feeds each as str and as utf-8 bytes).  quick keeps the two "between" contexts for the
-    # body-less shapes only.
+    # body-less shapes only, and the one-token deletions alone.
     for text, label in G.production_forms():
         if quick and "+between" in label and not label.startswith("bodyless"):
+            continue
+        if quick and label.startswith("drop:") and "+" in label:
             continue
         for flags in G.FLAG_TRIPLES:
             out.append(case("doc", flags, text, "enum:production-" + label))
